@@ -24,6 +24,9 @@ CONSTANTS
   ClosedOrdered = FALSE
   DupClears = TRUE
   MaxDup = 1
+  AllowRepeat = TRUE
+  CancelIdempotent = TRUE
+  RelayCancelIdempotent = TRUE
 INVARIANT TypeOK
 INVARIANT P_C05_WireTruth
 INVARIANT P_C05_ListPeers
